@@ -1,4 +1,4 @@
-CLAIM = True
+CLAIM = False
 from props.common import conc
 
 FL = {'mb': 1, 'memb': 2, 'qsbr': 3, 'bp': 4}
@@ -17,9 +17,9 @@ def gp(name, flavor, threads, R, tso=0, nested=0, unreg=0, membarrier=1, faults=
 def obligations(tier):
     q = tier == 'quick'
     obs = []
-    for fl in ('mb', 'memb'):
+    for fl in ('mb', 'memb', 'qsbr', 'bp'):
         obs += gp('%s_1r' % fl, fl, ['updater', 'reader'], 3, desc='%s: updater (unpublish, synchronize_rcu, free) vs one reader section' % fl,
-                  wit=['reader section overlaps the grace period', 'reader ran after the grace period', 'reader ran before the updater'])
+                  wit=['reader section overlaps the grace period', 'reader ran before the updater'] + ([] if fl == 'qsbr' else ['reader ran after the grace period']))
     return obs
 
 
